@@ -282,8 +282,13 @@ EvalQ(q0, db0, outer) ==
       pass == SelectSeq(ctxs, LAMBDA c : Truth(hv(c)))
       sel == IF q.star THEN [i \in 1..Len(F.cols) |-> [e |-> [k |-> "col", q |-> F.cols[i].q, c |-> F.cols[i].c], as |-> F.cols[i].c]] ELSE q.sel
       proj(c) == [i \in 1..Len(sel) |-> Ev(sel[i].e, c.env, c.grp, db)]
+      \* an ORDER BY item is an output position, an output alias, or an expression over the input row
+      aliasPos(e) == IF e.k = "col" /\ e.q = "" /\ (\E i \in 1..Len(sel) : sel[i].as = e.c)
+                     THEN CHOOSE i \in 1..Len(sel) : sel[i].as = e.c /\ \A k \in 1..(i-1) : sel[k].as # e.c ELSE 0
       okey(c) == [j \in 1..Len(q.order) |->
-                    IF q.order[j].pos > 0 THEN proj(c)[q.order[j].pos] ELSE Ev(q.order[j].e, c.env, c.grp, db)]
+                    IF q.order[j].pos > 0 THEN proj(c)[q.order[j].pos]
+                    ELSE IF aliasPos(q.order[j].e) > 0 /\ Lookup(c.env, "", q.order[j].e.c) = ERR THEN proj(c)[aliasPos(q.order[j].e)]
+                    ELSE Ev(q.order[j].e, c.env, c.grp, db)]
       rows0 == Map(pass, proj)
       keys0 == Map(pass, okey)
       anyErr == \/ \E i \in 1..Len(F.rows) : IsErr(wv(F.rows[i]))
@@ -306,7 +311,8 @@ ObsValEq(sv, ov) ==
    IF IsNull(sv) \/ IsNull(ov) THEN IsNull(sv) /\ IsNull(ov)
    ELSE IF sv.t = "s" \/ ov.t = "s" THEN sv.t = ov.t /\ sv.s = ov.s
    ELSE IF sv.t = "b" THEN ov.t \in {"b", "i"} /\ ov.d = 1 /\ ov.n = sv.n
-   ELSE IF sv.t = "i" THEN ov.t \in {"i", "b"} /\ AbsI(sv.n * ov.d - ov.n * sv.d) * 1000000 <= sv.d * ov.d
+   ELSE IF sv.t = "i" THEN ov.t \in {"i", "b"} /\ (IF ov.d = 1 THEN sv.n = ov.n * sv.d
+                                                     ELSE AbsI(sv.n * (1000000 \div sv.d) - ov.n) * sv.d <= sv.d + (1000000 % sv.d))
    ELSE FALSE
 ObsRowEq(sr, or) == Len(sr) = Len(or) /\ \A i \in 1..Len(sr) : ObsValEq(sr[i], or[i])
 ObsCount(rs, or) == Cardinality({ i \in 1..Len(rs) : ObsRowEq(rs[i], or) })        \* rs spec rows, or observed row
